@@ -382,6 +382,23 @@ def c_case(case, out):
             f"c_top_ref := {clist([cz(x) for x in out.get('top_ref', [])])} |}}")
 
 
+def fixed_structured():
+    """small deterministic cases of shapes that seeded changes needed (run by C01, C02, C06 on every check)"""
+    env = {'READOUT': 2.0, 'MICROWAVE': 1.0, 'FLUX': 1.0, 'RESET': 2.0}
+    x = lambda q: _g('Rx180', q)
+    progs = [
+        # a repeated block whose first operations sit on chains of different depth: the next round follows the whole group
+        [{'t': 'sub', 'reps': 2, 'body': [x(0), x(0), x(0), x(1)]}],
+        [{'t': 'sub', 'reps': 2, 'body': [x(1), x(0), x(0), x(0)]}],
+        [{'t': 'sub', 'reps': 3, 'body': [x(0), x(0), x(1), _g('CPhase', [0, 1])]}, x(1)],
+        # a wait on one channel of a qubit inside a (copied) block, then a relation-free gate on another channel of that qubit
+        [{'t': 'sub', 'reps': 1, 'body': [_w(0, 4.0, ch='FLUX')]}, x(0)],
+        [{'t': 'sub', 'reps': 2, 'body': [_w(0, 3.0, ch='READOUT'), _w(0, 1.0, ch='FLUX')]}, x(0), _w(0, 1.0, ch='FLUX')],
+    ]
+    import json as _json
+    return [{'prog': _json.loads(_json.dumps(p)), 'env': dict(env), 'reg': {'k0': 1.0, 'k1': 2.0}, 'shape': 'fixed'} for p in progs]
+
+
 # ------------------------------------------------------------------------------------------------ observation after a change of settings
 def gen_after_change(rng, n, gen):
     """Cases whose ONLY observation is made after the duration settings changed (driver: obs 'after_change')."""
